@@ -27,6 +27,14 @@ var c3Lead = []string{"appending", "available_externally", "common", "internal",
 	"amdgpu_vs", "amdgpu_gs", "amdgpu_ps", "amdgpu_cs", "amdgpu_kernel", "x86_regcallcc", "amdgpu_hs", "amdgpu_ls", "amdgpu_es", "aarch64_vector_pcs",
 	"aarch64_sve_vector_pcs", "amdgpu_gfx"}
 
+// the function attributes that are bare keywords, in the order of the model's list `Core3.kFuncAttr`
+var c3FuncAttr = []string{"alwaysinline", "argmemonly", "builtin", "cold", "convergent", "disable_sanitizer_instrumentation", "fn_ret_thunk_extern", "hot",
+	"inaccessiblememonly", "inaccessiblemem_or_argmemonly", "inlinehint", "jumptable", "minsize", "mustprogress", "naked", "nobuiltin", "nocf_check", "nocallback",
+	"noduplicate", "nofree", "noimplicitfloat", "noinline", "nomerge", "noprofile", "norecurse", "noredzone", "noreturn", "nosanitize_bounds", "nosanitize_coverage",
+	"nosync", "nounwind", "nonlazybind", "null_pointer_is_valid", "optforfuzzing", "optnone", "optsize", "presplitcoroutine", "readnone", "readonly", "returns_twice",
+	"ssp", "sspreq", "sspstrong", "safestack", "sanitize_address", "sanitize_hwaddress", "sanitize_memtag", "sanitize_memory", "sanitize_thread", "shadowcallstack",
+	"speculatable", "speculative_load_hardening", "strictfp", "uwtable", "willreturn", "writeonly"}
+
 // M-Core-3 descriptors (see lean/LlirModel/Drv/Core3Ops.lean): a function definition built through the ir API.
 //   core3.print <ret ty> <hexname> <params> <blocks>
 // Unnamed values (ident `I<k>`) are left WITHOUT an ID: the printer numbers them; the generator makes the model's IDs LLVM's numbering.
@@ -423,7 +431,49 @@ func core3Prepare(named map[string]*types.StructType, a []string) (*ir.Func, fun
 	// the name field may carry the header keywords: `<hexname>~<i>,<i>…` (positions in the model's list `kLead`: linkage, preemption, visibility, DLL storage
 	// class, calling convention)
 	nameHex, lead, _ := strings.Cut(a[1], "~")
+	lead, tail, _ := strings.Cut(lead, "~")
 	fn := ir.NewFunc(string(unhexArg(nameHex)), ret, params...)
+	// the clauses behind the parameter list: `u<i>` unnamed_addr / local_unnamed_addr, `a<n>` addrspace, `k<i>,…` attributes (positions in the model's list
+	// `kFuncAttr`), `s<hex>` section, `p<hex>` partition, `l<n>` align, `g<hex>` gc
+	if tail != "" {
+		for _, c := range strings.Split(tail, ";") {
+			if c == "" {
+				continue
+			}
+			v := c[1:]
+			num := func() uint64 {
+				n, err := strconv.ParseUint(v, 10, 64)
+				if err != nil {
+					panic("harness: bad clause descriptor " + c)
+				}
+				return n
+			}
+			switch c[0] {
+			case 'u':
+				fn.UnnamedAddr = asmenum.UnnamedAddrFromString([]string{"unnamed_addr", "local_unnamed_addr"}[num()])
+			case 'a':
+				fn.AddrSpace = types.AddrSpace(num())
+			case 'k':
+				for _, ps := range strings.Split(v, ",") {
+					i, err := strconv.Atoi(ps)
+					if err != nil || i < 0 || i >= len(c3FuncAttr) {
+						panic("harness: bad attribute position " + ps)
+					}
+					fn.FuncAttrs = append(fn.FuncAttrs, asmenum.FuncAttrFromString(c3FuncAttr[i]))
+				}
+			case 's':
+				fn.Section = string(unhexArg(v))
+			case 'p':
+				fn.Partition = string(unhexArg(v))
+			case 'l':
+				fn.Align = ir.Align(num())
+			case 'g':
+				fn.GC = string(unhexArg(v))
+			default:
+				panic("harness: bad clause descriptor " + c)
+			}
+		}
+	}
 	if lead != "" {
 		for _, ps := range strings.Split(lead, ",") {
 			i, err := strconv.Atoi(ps)
